@@ -177,7 +177,9 @@ func (r *Req) Sign(o SignOpt) string {
 	if o.Presign {
 		in := SignInput{Method: r.Method, Path: r.Path, Headers: r.Header, Time: o.Time,
 			Region: o.Region, Service: "s3", Creds: o.Creds, PayloadHash: Unsigned}
-		in.Signed = r.signedNames(o.ExtraSigned)
+		// presigned URLs sign the host only (SDKs hoist x-amz-* headers into the query;
+		// the gateway does not accept them as signed headers of a presigned request)
+		in.Signed = append([]string{"host"}, o.ExtraSigned...)
 		_, sh := CanonicalHeaders(r.Header, in.Signed)
 		r.Query = append(r.Query,
 			KV{"X-Amz-Algorithm", "AWS4-HMAC-SHA256"},
